@@ -12,6 +12,7 @@ import (
 
 	"github.com/DataDog/datadog-traceroute/common"
 
+	"verif/props/c05"
 	"verif/props/core"
 	"verif/props/proto"
 	"verif/shim/vtime"
@@ -24,7 +25,7 @@ type EScn struct {
 	Engine string `json:"engine"` // parallel | serial
 	First  int    `json:"first"`
 	Last   int    `json:"last"`
-	Ans    []int  `json:"ans"` // per TTL from First: 0 none, 1 hop, 2 destination
+	Ans    []int  `json:"ans"`   // per TTL from First: 0 none, 1 hop, 2 destination
 	Extra  string `json:"extra"` // "", "dup:<k>", "late:<k>" (k = index into Ans)
 	K      int    `json:"k"`
 	Bound  int    `json:"bound"`
@@ -377,6 +378,9 @@ func pItems(tier string) []proto.Item {
 			}
 		}
 	}
+	// SACK probes overtaking each other / lost on the way to the target, around the 2^32 wrap: the list still ends at the
+	// lowest TTL the destination answered (5)
+	items = append(items, c05.ForwardReorder(tier, 300, 31)...)
 	return items
 }
 
